@@ -213,6 +213,7 @@ func docOf(nl *sbom.NodeList) *sbom.Document {
 
 func Run(c *engine.Ctx) {
 	shapes(c)
+	reserved(c)
 	enums(c)
 	attributes(c)
 }
@@ -260,6 +261,43 @@ func shapes(c *engine.Ctx) {
 		run("shapes-n3-e2", ids[:3], 2, [][]sbom.Node_NodeType{{P, P, P}, {P, F, P}, {F, F, P}, {F, F, F}}, []int{0, 1, 4})
 		run("shapes-n3-e3", ids[:3], 3, [][]sbom.Node_NodeType{{P, F, P}}, []int{0})
 		run("shapes-n4-e2", ids, 2, [][]sbom.Node_NodeType{{P, P, F, P}}, []int{4})
+	}
+}
+
+// reserved: identifiers that only differ from SPDX's reserved words by case or by a suffix are ordinary identifiers.
+func reserved(c *engine.Ctx) {
+	c.Group("reserved-word-identifiers")
+	words := []string{"Document", "document", "dOCUMENT", "DOCUMENT2", "DOCUMENT-x", "None", "none", "NONE1", "NoAssertion", "noassertion", "NOASSERTION.x", "SPDXRef", "spdxref-a", "DocumentRef-a", "Package", "File"}
+	c.Bound("reserved-word-identifiers", fmt.Sprintf("%d identifiers next to DOCUMENT / NONE / NOASSERTION / SPDXRef as node in three graph positions (root, edge source, edge target) x kind", len(words)))
+	for _, w := range words {
+		for pos := 0; pos < 3; pos++ {
+			for _, kind := range []sbom.Node_NodeType{sbom.Node_PACKAGE, sbom.Node_FILE} {
+				w, pos, kind := w, pos, kind
+				c.Case(func() any { return map[string]any{"id": w, "position": []string{"root+source", "target", "middle"}[pos], "kind": kind.String()} }, func(t *engine.T) *engine.Violation {
+					nl := &sbom.NodeList{}
+					switch pos {
+					case 0:
+						nl.Nodes = []*sbom.Node{{Id: w, Name: "n", Type: kind}, {Id: "leaf", Name: "l"}}
+						nl.Edges = []*sbom.Edge{{From: w, Type: tc, To: []string{"leaf"}}, {From: w, Type: sbom.Edge_describes, To: []string{"leaf"}}}
+						nl.RootElements = []string{w}
+					case 1:
+						nl.Nodes = []*sbom.Node{{Id: "top", Name: "t"}, {Id: w, Name: "n", Type: kind}}
+						nl.Edges = []*sbom.Edge{{From: "top", Type: td, To: []string{w}}, {From: "top", Type: sbom.Edge_describes, To: []string{w}}}
+						nl.RootElements = []string{"top"}
+					default:
+						nl.Nodes = []*sbom.Node{{Id: "top", Name: "t"}, {Id: w, Name: "n", Type: kind}, {Id: "leaf", Name: "l", Type: sbom.Node_FILE}}
+						nl.Edges = []*sbom.Edge{{From: "top", Type: tc, To: []string{w}}, {From: w, Type: tc, To: []string{"leaf", w}}, {From: "leaf", Type: sbom.Edge_describedBy, To: []string{w}}}
+						nl.RootElements = []string{"top", w}
+					}
+					if v := RoundTrip(t, docOf(nl), 2); v != nil {
+						return v
+					}
+					t.State(fmt.Sprintf("reserved|%s|%d|%d", w, pos, kind))
+					t.Outcome("reserved-ok")
+					return nil
+				})
+			}
+		}
 	}
 }
 
